@@ -47,7 +47,8 @@ type Req struct {
 	NoJar     bool   // do not attach jar cookies
 	CookieHdr string // raw Cookie header (in addition to / instead of jar cookies)
 	Chunked   bool
-	NoStore   bool // do not store response cookies (lost write)
+	NoStore   bool          // do not store response cookies (lost write)
+	BodyGap   time.Duration // the second half of the body is sent this long after the first (slow upload)
 }
 
 func (b *Browser) snapshot() {
@@ -313,7 +314,18 @@ func (b *Browser) Do(r Req) *Exchange {
 	}
 	defer conn.Close()
 	conn.SetReadDeadline(time.Now().Add(120 * time.Second)) // a patient user
-	if _, err := conn.Write(buf.Bytes()); err != nil {
+	out := buf.Bytes()
+	if r.BodyGap > 0 && !r.Chunked && len(r.Body) >= 2 {
+		// a slow upload: head and first half of the body now, the rest after the gap
+		hold := len(r.Body) / 2
+		if _, err := conn.Write(out[:len(out)-hold]); err != nil {
+			ex.Err = "write: " + err.Error()
+			return ex
+		}
+		time.Sleep(r.BodyGap)
+		out = out[len(out)-hold:]
+	}
+	if _, err := conn.Write(out); err != nil {
 		ex.Err = "write: " + err.Error()
 		return ex
 	}
